@@ -293,6 +293,59 @@ impl<'a, MutexType: RawMutex> Drop
     }
 }
 
+#[cfg(futures_intrusive_verif)]
+fn verif_node_info(node: &ListNode<WaitQueueEntry>) -> crate::verif::NodeInfo {
+    let (prev, next) = node.verif_links();
+    let (has_waker, waker_data) = crate::verif::waker_data(&node.task);
+    crate::verif::NodeInfo {
+        prev,
+        next,
+        state: match node.state {
+            PollState::New => 0,
+            PollState::Waiting => 1,
+            PollState::Done => 2,
+        },
+        has_waker,
+        waker_data,
+        ..Default::default()
+    }
+}
+
+#[cfg(futures_intrusive_verif)]
+impl<MutexType: RawMutex> GenericManualResetEvent<MutexType> {
+    /// Reports the internal state while holding the internal lock
+    pub fn verif_inspect(
+        &self,
+        visit: &mut dyn FnMut(crate::verif::Visit) -> bool,
+    ) {
+        use crate::verif::{PrimInfo, Visit};
+        let state = self.inner.lock();
+        let (head, tail) = state.waiters.verif_ends();
+        visit(Visit::Prim(PrimInfo {
+            head,
+            tail,
+            flag: state.is_set,
+            ..Default::default()
+        }));
+        crate::verif::walk_list(&state.waiters, 0, visit, &verif_node_info);
+        visit(Visit::Done);
+    }
+}
+
+#[cfg(futures_intrusive_verif)]
+impl<'a, MutexType: RawMutex> GenericWaitForEventFuture<'a, MutexType> {
+    /// Address of the embedded wait node
+    pub fn verif_node_addr(&self) -> usize {
+        &self.wait_node as *const _ as usize
+    }
+
+    /// Content of the embedded wait node. Must only be called while no other
+    /// thread can access the node (e.g. from within `verif_inspect`)
+    pub unsafe fn verif_node_info(&self) -> crate::verif::NodeInfo {
+        verif_node_info(&self.wait_node)
+    }
+}
+
 // Export a non thread-safe version using NoopLock
 
 /// A [`GenericManualResetEvent`] which is not thread-safe.
